@@ -62,6 +62,18 @@ class Spec:
             step = self.apply(st2, lab)
             assert not step.violations and not st2.dead, lab
         out.append(("two-streams-open", st2))
+        if not self.client:
+            # the same with the local MAX_CONCURRENT_STREAMS lowered to 2 and acknowledged: the connection is AT its limit,
+            # which must not matter for frames that open nothing (late HEADERS on streams that are gone)
+            st3 = pickle.loads(pickle.dumps(st))
+            for o in (st3.h.rx([wire.settings([], ack=True)]), st3.h.api("update_settings", {wire.S_MAX_CONCURRENT_STREAMS: 2}),
+                      st3.h.rx([wire.settings([], ack=True)])):
+                assert o.kind == "ok", o.brief()
+            for lab in ("rx:H:1", "rx:H:3"):
+                step = self.apply(st3, lab)
+                assert not step.violations and not st3.dead, lab
+            st3.at_limit = 2
+            out.append(("two-streams-open-at-limit-2", st3))
         return out
 
     def fingerprint(self, st):
@@ -84,8 +96,16 @@ class Spec:
             parents = [s for s in live if s % 2 == 1]
             if parents:
                 for p in PROMISED:
-                    if p not in live and p <= TOP:
-                        acts.append("rx:PP:%d:%d" % (parents[0], p))
+                    if p <= TOP:
+                        acts.append("rx:PP:%d:%d" % (parents[0], p))      # also ids of streams that are live right now
+            for s_ in live:
+                if m.streams[s_].state == SM.RES_REMOTE:
+                    acts.append("rx:resp:%d" % s_)           # the pushed response starts: the promised stream is open now
+            # an informational response on a stream of ours that is closed but not forgotten yet
+            for s_, x in sorted(m.streams.items()):
+                if x.local_init and x.state == SM.CLOSED and m.status(s_) == "closed":
+                    acts.append("rx:Hinfo:%d" % s_)
+                    break
             for s in live:
                 if m.streams[s].local_init and not m.streams[s].pushed:
                     acts.append("finish:%d" % s)
@@ -218,6 +238,27 @@ class Spec:
                 out += "-refused"
                 # the path goes on: a refused open must not have used up an id (get_next_available_stream_id is
                 # observed below, later opens are judged against the unchanged model)
+        elif parts[:2] == ["rx", "resp"]:
+            sid = int(parts[2])
+            o = h.rx([wire.headers(sid, sb(H.RESP))], ("headers", sid, False, False))
+            if o.kind != "ok" or o.frames:
+                bad("pushed-response-rejected", "%s -> %s" % (lab, o.brief()))
+                st.dead = True
+                return Step("resp-rejected", viols, prune=True)
+        elif parts[:2] == ["rx", "Hinfo"]:
+            sid = int(parts[2])
+            s0 = m.get(sid)
+            exp = ("SE", wire.STREAM_CLOSED) if s0.closed_by in ("send_rst", "recv_rst") else ("CE", wire.STREAM_CLOSED)
+            o = h.rx([wire.headers(sid, sb([(b":status", b"103")]))])
+            got = classify(o, sid)
+            if got != exp and not (got == ("OK", None) and exp[0] == "SE" and not o.events):
+                bad("peer-open-wrong-outcome", "1xx HEADERS on our stream %d (closed, closed_by=%s): expected %s, got %s [%s]" % (
+                    sid, s0.closed_by, show(exp), show(got), o.brief()), frame="Hinfo", status="closed", closed_by=str(s0.closed_by),
+                    expected=show(exp), got=show(got), zero=False)
+            if o.kind == "raise":
+                st.dead = True
+                return Step("peer-open-" + show(got), viols, prune=True)
+            out = "peer-open-" + show(got)
         elif parts[:2] == ["rx", "H"] or parts[:2] == ["rx", "PP"]:
             if parts[1] == "H":
                 sid = int(parts[2])
@@ -231,9 +272,11 @@ class Spec:
             s0 = m.get(sid)
             closed_by = s0.closed_by if s0 is not None else None
             peer_parity = (sid % 2 == 1) != self.client and sid > 0
+            if getattr(st, "at_limit", None) and parts[1] == "H" and status == "unused_high" and m.count_open(False) >= st.at_limit:
+                return Step("over-the-limit(C10)", viols, prune=True)
             o = h.rx([fr], meta)
-            if sid == 0 or (not peer_parity and status.startswith("unused")):
-                exp = ("CE", wire.PROTOCOL_ERROR)
+            if sid == 0 or (not peer_parity and status.startswith("unused")) or status == "live":
+                exp = ("CE", wire.PROTOCOL_ERROR)          # (live: the id names a stream that exists right now)
             elif status == "unused_high":
                 exp = ("OK", None)
             elif status == "unused_low":
